@@ -686,6 +686,39 @@ class EqPathParallelSpecFinder(
             return sp1, sp2
         return None
 
+    def _maps_are_matched(
+        self, matching_info: MatchingInfo, sp1: SpecMap, sp2: SpecMap
+    ) -> bool:
+        """In addition to the matching of the rules, check the equivalence paths
+        of every pair of children under the pair of parents it is reached from.
+        (The search skips that for the children of a pair of labels that both had
+        their rules already.)"""
+        if not super()._maps_are_matched(matching_info, sp1, sp2):
+            return False
+        tracker: EqPathTracker = defaultdict(lambda: defaultdict(dict))
+        seen: Set[Tuple[Tuple[int, int], Tuple[int, int, int, int]]] = set()
+        stack = [
+            ((self._pi1.root_eq_label, self._pi2.root_eq_label), (-1, -1, -1, -1))
+        ]
+        while stack:
+            pair, relations = stack.pop()
+            if (pair, relations) in seen:
+                continue
+            seen.add((pair, relations))
+            children1, children2 = sp1.get(pair[0]), sp2.get(pair[1])
+            if children1 is None or children2 is None:
+                return False
+            if children1 == () == children2:
+                continue
+            if not self._eq_path_matches(*pair, *relations, sp1, sp2, tracker):
+                return False
+            order = matching_info.get(pair, {}).get((children1, children2))
+            if order is None:
+                return False
+            for j2, (j1, child2) in enumerate(zip(order, children2)):
+                stack.append(((children1[j1], child2), (pair[0], pair[1], j1, j2)))
+        return True
+
     def _search_matching_info_recursion_base_cases_eq(
         self,
         id1: int,
